@@ -200,6 +200,12 @@ def explore(run, tier):
             rec = b'1240' + bm([bit]) + b' ' * 30
             cases.append({'hex': (struct.pack('>I', len(rec)) + rec).hex(), 'cfgedit': {'add': [str(bit)]},
                           'expect': 'valid', 'cls': f'DE{bit} added to the configuration after a first inspection'})
+    # MTI bytes that are numeric to str.isnumeric() and no digits to int() (superscripts, fractions), all zeros, and mixtures:
+    # inspection answers (valid with some encoding, or invalid with a reason) — it never raises
+    for mti in (b'\xb2\xb3\xb9\xbc', b'\xbd\xbe\xb2\xb2', b'\xea\xfa\xda\xb7', b'0000', b'\xf0\xf0\xf0\xf0', b'\xb2000',
+                b'\xf0\xf0\xf0\xea', b'12\xb23', b'\xf1\xf2\xf4\xfa'):
+        recm = mti + bm([3]) + b' ' * 30
+        cases.append({'hex': (struct.pack('>I', len(recm)) + recm).hex()})
     # the configured maximum record length, lowered / raised / absent: the first length is judged against THAT value
     rec = b'1240' + bm([3]) + b' ' * 30
     for mx in (50, 100, 3000, 5999, 6000, 6001, 10000, 70000, 'absent'):
@@ -220,6 +226,16 @@ def explore(run, tier):
             body = b'.' * 988 + t[0] + t[1] + b'.' * 1012 + t[2] + t[3] + b'.' * tail
             cases.append({'hex': (head + body).hex(), 'trailers': pat})
     run.exhaustive.append('all 16 patterns of 0x40 / non-0x40 at bytes 1012, 1013, 2026, 2027 x 3 sample lengths')
+    # trailer positions holding byte PAIRS that are not x'40' x'40' but combine to x'40' under a bit operation (AND, OR, XOR,
+    # sum / 2): 'AB', 'Qb', x'C0 40', x'00 40', x'20 20', x'80 C0' — two bytes are a trailer only when both are x'40'
+    for pair in (b'AB', b'Qb', b'\xc0\x40', b'\x00\x40', b'\x20\x20', b'\x80\xc0', b'\x40\x00', b'\x41\x3f'):
+        for second in (b'@@', pair):
+            for tail in (0, 600):
+                body = b'.' * 988 + pair + b'.' * 1012 + second + b'.' * tail
+                cases.append({'hex': (head + body).hex(), 'trailers': 0})
+                body = b'.' * 988 + b'@@' + b'.' * 1012 + pair + b'.' * tail
+                cases.append({'hex': (head + body).hex(), 'trailers': 0})
+        cases.append({'hex': (head + b'.' * 988 + pair).hex(), 'trailers': 0})
     for mti in ['1234'.encode('cp037'), 'XXXX'.encode('cp037'), b'\xb2\xb3\xb9\xbc', b'12\xf14', b'\xf1\xf2\xf3\xb9', b'    ']:
         cases.append({'hex': (b'\x00\x00\x00\xff' + mti + b'\x70' + b'\x00' * 15 + b' ' * 50).hex()})
     run.correspond(__name__, cases, use_model=run.use_model, chunk=40)
